@@ -149,3 +149,39 @@ def internal_globs_match_by_name(pattern, name):
     assert f.match(addr) == fnmatchcase(addr.raw, InternalGroupAddress(pattern).raw), (pattern, name)  # case-sensitive
     assert f.match(GroupAddress(1)) is False
     assert AddressFilter("1/*/2-5").match(addr) is False
+
+
+# ------------------------------------------------------------------ a filter object has no memory
+
+
+def _reuse_cases(tier, **fixed):
+    pats = ["1/300-", "0-3/*,7", "5,9-12", "200-", "2/1000-2047", "*", "*/7", "1-2/*/3", "31/7/255", "0/0/0-1"]
+    raws = [0, 1, 5, 7, 261, 2092, 2348, 5596, 65535, 2048 + 7, 0x0A03]
+    for p in pats:
+        for r in raws:
+            yield (p, r)
+
+
+@standin("C02", cases=_reuse_cases, kind="enum-native", exhaustive=False, bound="10 patterns (1-, 2- and 3-level) x 11 addresses: one filter object asked under every ordered pair of the three notations (and twice under the same one) answers - or refuses - each time exactly as a freshly built filter does: matching depends on pattern, address and configured notation only, not on earlier calls")
+def a_filter_answers_like_a_fresh_one_whatever_it_was_asked_before(pattern, raw):
+    import itertools as _it
+
+    def ask(f, a):
+        try:
+            return ("match", f.match(a))
+        except Exception as e:  # noqa: BLE001  (a 3-level pattern refuses other notations: the refusal must be the same too)
+            return ("raise", type(e).__name__)
+
+    old = GroupAddress.address_format
+    try:
+        for first, second in _it.product(list(GroupAddressType), repeat=2):
+            GroupAddress.address_format = first
+            f = AddressFilter(pattern)
+            a = GroupAddress(raw)
+            assert ask(f, a) == ask(AddressFilter(pattern), a), (pattern, raw, first)
+            GroupAddress.address_format = second
+            a2 = GroupAddress(raw)
+            assert ask(f, a2) == ask(AddressFilter(pattern), a2), (pattern, raw, first, second, "depends on the earlier call")
+            assert ask(f, a2) == ask(f, a2)
+    finally:
+        GroupAddress.address_format = old
